@@ -49,6 +49,7 @@ def spec(prop: str, stages, extra_modules=(), extra_theorems=(), only=None):
 T = "StubGen.Theorems.Tables"
 DA, DP, DT, DR = ("StubGen.Theorems.DecArgs", "StubGen.Theorems.DecParams", "StubGen.Theorems.DecAttrs",
                   "StubGen.Theorems.DecResults")
+DS = "StubGen.Theorems.DecStrings"
 """T2 obligations: model = table of the real function on every point of a finite domain"""
 
 PROPS = {
@@ -56,12 +57,13 @@ PROPS = {
     "C03": spec("C03", [stage_gen.run, stage_ana.run, stage_e2e.run, stage_pipe.run]),
     "C04": spec("C04", [stage_gen.run, stage_ana.run, stage_e2e.run], [DT], ["StubGen.Decisions.attribute_string_table"]),
     "C17": spec("C17", [stage_gen.run, stage_e2e.run]),
-    "C02": spec("C02", [stage_names.run, stage_gen.run, stage_e2e.run], [T],
-                ["StubGen.Tables.keywords_escaped", "StubGen.Tables.escape_table_exact"]),
+    "C02": spec("C02", [stage_names.run, stage_gen.run, stage_e2e.run], [T, DS],
+                ["StubGen.Tables.keywords_escaped", "StubGen.Tables.escape_table_exact", "StubGen.Decisions.escape_string_table"]),
     "C05": spec("C05", [stage_gen.run, stage_ana.run, stage_e2e.run], [T, DA],
                 ["StubGen.Tables.builtin_names", "StubGen.Decisions.type_of_any_table", "StubGen.Decisions.variance_table"]),
-    "C06": spec("C06", [stage_gen.run, stage_ana.run, stage_e2e.run], [DA, DP],
-                ["StubGen.Decisions.argument_kind_table", "StubGen.Decisions.parameter_string_table"]),
+    "C06": spec("C06", [stage_gen.run, stage_ana.run, stage_e2e.run], [DA, DP, DS],
+                ["StubGen.Decisions.argument_kind_table", "StubGen.Decisions.parameter_string_table",
+                 "StubGen.Decisions.escape_string_table"]),
     "C07": spec("C07", [stage_gen.run, stage_ana.run, stage_e2e.run], [DR], ["StubGen.Decisions.result_string_table"]),
     "C08": spec("C08", [stage_det.run, stage_disc.run, stage_ana.run, stage_gen.run, stage_pipe.run]),
     "C09": spec("C09", [stage_names.run, stage_gen.run, stage_e2e.run], [T], ["StubGen.Tables.name_annotation_form"]),
